@@ -201,6 +201,14 @@ func register() {
 		fh6 := func(args ...string) (handler.Handler6, error) {
 			return h6("modify", 99), fmt.Errorf("synthetic setup failure")
 		}
+		// synthetic plugins registered under the NAMES of the built-in ones: what a plugin is
+		// called must not influence where it runs in the chain
+		for _, n := range builtinNames {
+			if err := plugins.RegisterPlugin(&plugins.Plugin{Name: n, Setup4: s4, Setup6: s6}); err != nil {
+				panic(err)
+			}
+			pname["as-"+n] = n
+		}
 		for _, p := range []*plugins.Plugin{
 			{Name: "vfailh4", Setup4: fh4, Setup6: s6}, {Name: "vfailh6", Setup4: s4, Setup6: fh6},
 			{Name: "vs4", Setup4: s4}, {Name: "vs6", Setup6: s6}, {Name: "vsd", Setup4: s4, Setup6: s6},
@@ -214,6 +222,8 @@ func register() {
 }
 
 var pname = map[string]string{"s4": "vs4", "s6": "vs6", "sd": "vsd", "unknown": "vnosuchplugin", "fail4": "vfail4", "fail6": "vfail6", "failh4": "vfailh4", "failh6": "vfailh6"}
+
+var builtinNames = []string{"server_id", "file", "range", "prefix", "dns", "router", "netmask", "lease_time", "sleep", "nbp", "mtu", "searchdomains", "staticroute", "ipv6only", "autoconfigure"}
 
 func supports(kind string, proto int) bool {
 	switch kind {
@@ -393,7 +403,7 @@ func run(r *ev.Run) {
 	if !r.Quick() {
 		maxLen = 5
 	}
-	r.Rule(fmt.Sprintf("E3: all chains of length 0..%d over 7 handler behaviours {pass,modify,replace,stop,replace+stop,stop-with-nil,modify after an hour of (virtual) processing time} x protocol {4,6}, built through plugins.LoadPlugins and run through HandleMsg4/6; the same chains up to length %d loaded from generated YAML through config.Load; all placements of v4-only/v6-only/dual/unknown/failing-setup plugins in chains of length <=3. Reference interpreter from the property text. Class = proto/len/yaml/#calls/sent.", maxLen, map[bool]int{true: 2, false: 5}[r.Quick()]))
+	r.Rule(fmt.Sprintf("E3: all chains of length 0..%d over 7 handler behaviours {pass,modify,replace,stop,replace+stop,stop-with-nil,modify after an hour of (virtual) processing time} x protocol {4,6}, built through plugins.LoadPlugins and run through HandleMsg4/6; the same chains up to length %d loaded from generated YAML through config.Load; all placements of v4-only/v6-only/dual/unknown/failing-setup plugins in chains of length <=3; a synthetic plugin registered under the name of each of the 15 built-in plugins at every position of a 3-chain. Reference interpreter from the property text. Class = proto/len/yaml/#calls/sent.", maxLen, map[bool]int{true: 2, false: 5}[r.Quick()]))
 	r.Assume("server.Start is executed only in the loopback binding run (one listener per protocol); multicast/interface-bound listeners are not opened")
 	var rec func(prefix []Item, n int, f func([]Item))
 	rec = func(prefix []Item, n int, f func([]Item)) {
@@ -433,6 +443,19 @@ func run(r *ev.Run) {
 	}
 	for n := 1; n <= 3; n++ {
 		rk(nil, n)
+	}
+	// plugin names of the built-in plugins at every position of a 3-chain
+	register()
+	for _, n := range builtinNames {
+		for pos := 0; pos < 3; pos++ {
+			for _, beh := range []string{"modify", "stop"} {
+				ch := []Item{{"sd", "modify"}, {"sd", "modify"}, {"sd", "modify"}}
+				ch[pos] = Item{"as-" + n, beh}
+				for _, proto := range []int{4, 6} {
+					eval(r, Case{proto, ch, false})
+				}
+			}
+		}
 	}
 	builtinMonitor(r)
 	r.Rule("Binding run through the real server.Start with loopback sockets, both protocols: a request sent from inside the set-up function of each of two configured marker plugins (the chain is not complete yet) must stay unanswered; after Start returns the same request comes back with both markers in configured order.")
